@@ -1,5 +1,18 @@
 (* C05 - parsing is a pure function of the command line, the format and the mode. *)
-From Clikit Require Import Base.Prelude Base.Res Model.Format Model.Parser Proofs.ParserLemmas.
+From Clikit Require Import Base.Prelude Base.Res Model.Format Model.Parser Proofs.ParserLemmas
+                           Proofs.ParserStateLemmas.
+
+(* WHAT IS PROVED ABOUT THE CODE.  [parse_on st0] (Model/Parser.v) is DefaultArgsParser.parse on a parser object whose
+   scratch maps hold st0; it starts from empty maps because the source starts with
+       self._arguments = OrderedDict(); self._options = OrderedDict()
+   - a fact about the source that harness/translate_c05.py re-reads (AST, fail-closed) in every run of the C05 check,
+   together with "the object carries no other state".  [parse_resets_at_entry] states that reading as an equation with the
+   state-taking body [parse_from]; the two theorems after it then hold by that reset and by nothing else - which the last
+   three theorems make precise: with any other choice of maps reset at entry the same statements are FALSE (the code
+   before repo fix d80c000 reset only _arguments). *)
+Theorem parse_resets_at_entry : forall st0 f len toks, parse_on st0 f len toks = parse_obj RESET_BOTH st0 f len toks.
+Proof. exact parse_on_is_parse_obj. Qed.
+Print Assumptions parse_resets_at_entry.
 
 (* The result of a parse on a parser object in ANY scratch state equals the result on a fresh one. *)
 Theorem parse_ignores_scratch : forall st0 f len toks, snd (parse_on st0 f len toks) = parse f len toks.
@@ -12,3 +25,25 @@ Theorem reuse_eq_fresh : forall reqs st,
   run_history st reqs = map (fun q : request => let '(f, len, toks) := q in parse f len toks) reqs.
 Proof. exact reuse_eq_fresh_lemma. Qed.
 Print Assumptions reuse_eq_fresh.
+
+(* The parser that resets only self._arguments (the code before the repair): the statement is refuted - the history
+   "--num 5" ; "" gives num = 5 for the empty line (ReuseWitness.args_only_leaks). *)
+Theorem reuse_unfixed_refuted : exists reqs, run_history_obj RESET_ARGS_ONLY ps_empty reqs <> fresh_results reqs.
+Proof. exact reuse_unfixed_refuted_lemma. Qed.
+Print Assumptions reuse_unfixed_refuted.
+
+(* Re-use equals fresh for all histories from all object states EXACTLY WHEN both scratch maps are reset at entry. *)
+Theorem reuse_eq_fresh_iff_both_maps_reset : forall r,
+  (forall reqs st, run_history_obj r st reqs = fresh_results reqs) <-> r = RESET_BOTH.
+Proof. exact reuse_eq_fresh_iff_lemma. Qed.
+Print Assumptions reuse_eq_fresh_iff_both_maps_reset.
+
+Theorem parse_independent_of_object_state_iff_both_maps_reset : forall r,
+  (forall st0 f len toks, snd (parse_obj r st0 f len toks) = parse f len toks) <-> r = RESET_BOTH.
+Proof. exact parse_obj_independent_iff_lemma. Qed.
+Print Assumptions parse_independent_of_object_state_iff_both_maps_reset.
+
+(* The entry the correspondence run uses (run_C05) asked for "both maps reset" is the entry of the code as it is. *)
+Theorem run_C05_both : forall fmts reqs extra, run_C05 (L [fmts; reqs; extra; A 0%Z]) = run_C05_asis (L [fmts; reqs; extra]).
+Proof. exact run_C05_both_lemma. Qed.
+Print Assumptions run_C05_both.
